@@ -157,7 +157,9 @@ def r4_skip_table(ctx):
             nx = [e for e in body if e[0] == "switch" and c07.is_next_discr(e[2])]
             if not nx:
                 continue
-            v = nx[-1][3]
+            # the variant of the event: the first test that pinned it down (later `matches!` on the same event only re-ask)
+            ints = [e[3] for e in nx if isinstance(e[3], int)]
+            v = ints[0] if ints else nx[-1][3]
             var = c07.devar(F, v) if isinstance(v, int) else "other"
             same = None
             for e in body:
@@ -221,7 +223,7 @@ def r6_read_to_end(ctx):
                 out = "same" if dv is None or dv[0] == "phi" else ("depth+1" if dv[0] == "bin" and dv[1] == "Add" and strip_wrappers(dv[3])[2] == 1 else "depth-1" if dv[0] == "bin" and dv[1] == "Sub" and strip_wrappers(dv[3])[2] == 1 else "?")
             else:
                 out = "stop"
-            skipped = any(name_is(c[2], "XmlReader::read_to_end", "read_to_end") and not isinstance(c[1], tuple) for c in calls(p))
+            skipped = any(name_is(c[2], "XmlReader::read_to_end") for c in calls(p))
             src = "reader" if popped == 0 else (vs[ev] if isinstance(ev, int) and ev < len(vs) else "other")
             rows.setdefault((src, same, None if d0 is None else d0 != 0), set()).add((out, skipped))
         want = {("reader", None, True): {("stop", True)}, ("reader", None, False): {("depth-1", True)},
